@@ -35,6 +35,8 @@ struct FailEvent {
 struct MockState {
     // script for the current Solve
     std::vector<Outcome> outcomes;
+    int tail_on;       // after the scripted outcomes: 0 = every call succeeds, 1 = every call fails like `tail`
+    Outcome tail;
     std::vector<std::pair<int, int> > reinit_fail;  // (k-th reinit, flag)
     int setup_fail_idx;
     int setup_fail_flag;
@@ -46,6 +48,7 @@ struct MockState {
     int level, substep;
     int capped;
     int ill_input;
+    long tail_used;
     int mem_null;
     double integrated;
     std::vector<FailEvent> fail_events;
@@ -62,6 +65,7 @@ struct MockState {
         substep = 0;
         capped = 0;
         ill_input = 0;
+        tail_used = 0;
         mem_null = 0;
         integrated = 0.0;
         fail_events.clear();
